@@ -109,6 +109,8 @@ class FieldMonitor(object):
                         case = {"decl": decl, "format": {k: v for k, v in fmt.items() if k != "allowed"},
                                 "allowed": getattr(getattr(self.data_format, "allowed_characters", None), "description", None),
                                 "cell": value}
+                        if getattr(self, "_cpverif_note", None):
+                            case["note"] = self._cpverif_note
                         if mon.register_cases:
                             ctx.case(case, mon.nontrivial(decl, fmt, value, verdict))
                         if verdict[0] == F.ACCEPT and outcome[0] == "crash":
